@@ -42,7 +42,20 @@ def _first_store(path, recv):
     return None, None
 
 
-def _site(ctx, rule, fi, name, select, accept, recv="self", loops=1, floor=1):
+def _array_sources(st, recv):
+    """Names (other than `recv`) whose frequencies / errors2 arrays are read in the value stored by `st`."""
+    val = getattr(st, "value", None)
+    out = set()
+    if val is None:
+        return out
+    for n in ast.walk(val):
+        if (isinstance(n, ast.Attribute) and n.attr in ("frequencies", "errors2", "_frequencies", "_errors2")
+                and isinstance(n.value, ast.Name) and n.value.id != recv):
+            out.add(n.value.id)
+    return out
+
+
+def _site(ctx, rule, fi, name, select, accept, recv="self", loops=1, floor=1, operands=False):
     """All selected paths that store contents must coerce `recv` with an accepted argument first."""
     ctx.saw(fi)
     n = 0
@@ -65,6 +78,13 @@ def _site(ctx, rule, fi, name, select, accept, recv="self", loops=1, floor=1):
             others = [f"{r}._coerce_dtype({U(a)})" for r, a in cs]
             bad.append(f"`{U(st)[:70]}` is not preceded by a suitable dtype coercion of `{recv}`"
                        + (f" (found only {others})" if others else " (none on the path)"))
+        elif operands:
+            # every other histogram object whose arrays feed the stored value must have had its own dtype coerced in
+            for obj in sorted(_array_sources(st, recv)):
+                texts = {f"{obj}.dtype", f"{obj}._dtype", f"{obj}.frequencies.dtype", f"{obj}._frequencies.dtype"}
+                if not any(r == recv and U(a) in texts for r, a in cs):
+                    bad.append(f"`{U(st)[:70]}` stores arrays taken from `{obj}` but `{recv}` was not coerced with "
+                               f"`{obj}.dtype` first (coerced with {[U(a) for r, a in cs if r == recv]})")
     key = f"{fi.qualname}:{name}"
     if n < floor:
         ctx.bad(rule, key, f"expected at least {floor} storing path(s) for this site, found {n} (anchor moved?)", fi.where)
@@ -233,12 +253,13 @@ def check_operator_coercion(ctx, rule, m, names=("__iadd__", "__isub__", "__imul
         pass
     ia = HB.methods["__iadd__"]
     o = [p for p in ia.params() if p != "self"][0]
-    _site(ctx, rule, ia, "histogram-operand", lambda p, e: _cond(p, f"isinstance({o}, HistogramBase)"), arg_is(f"{o}.dtype"), floor=2)
+    _site(ctx, rule, ia, "histogram-operand", lambda p, e: _cond(p, f"isinstance({o}, HistogramBase)"), arg_is(f"{o}.dtype"), floor=2, operands=True)
     _site(ctx, rule, ia, "array-operand", lambda p, e: _cond(p, f"isinstance({o}, HistogramBase)", False),
           dtype_of_asarray(o), floor=1)
     isub = HB.methods["__isub__"]
     o = [p for p in isub.params() if p != "self"][0]
-    _site(ctx, rule, isub, "histogram-operand", lambda p, e: _cond(p, f"isinstance({o}, HistogramBase)"), arg_is(f"{o}.dtype"), floor=1)
+    _site(ctx, rule, isub, "histogram-operand", lambda p, e: _cond(p, f"isinstance({o}, HistogramBase)"),
+          lambda a, env: U(a).endswith(".dtype"), floor=1, operands=True)
     im = HB.methods["__imul__"]
     o = [p for p in im.params() if p != "self"][0]
     _site(ctx, rule, im, "factor", lambda p, e: True, dtype_of_asarray(o), floor=2)
